@@ -518,8 +518,8 @@ struct Budget {
 }
 fn budget(tier: Tier) -> Budget {
     match tier {
-        Tier::Quick => Budget { runs: 6000 },
-        Tier::Thorough => Budget { runs: 400000 },
+        Tier::Quick => Budget { runs: driver::scale(6000) },
+        Tier::Thorough => Budget { runs: driver::scale(400000) },
     }
 }
 
